@@ -103,6 +103,7 @@ def run(res, programs, tier):
     from . import c17b
     for P in programs:
         if "dashu_int" in P.units:
+            P = c17.storage_view(P)
             c17._inventory(res, P, P.name)
             c17._r17_3(res, P, P.name)
             c17b._r17_8c(res, P, P.name)
